@@ -294,12 +294,19 @@ def run(prog, ctx):
     pc = prog.func("DimAdaptiveCombi.DimAdaptiveCombi.perform_combi")
     ctx.touch(pc)
     tm = Terms(pc.node)
+    # role of the cache of component integrals: a local created as an empty dict in perform_combi and filled by subscript stores
+    fresh_dicts = {st.targets[0].id for st in walk_local(pc.node) if isinstance(st, ast.Assign) and len(st.targets) == 1
+                   and isinstance(st.targets[0], ast.Name) and ((isinstance(st.value, ast.Dict) and not st.value.keys)
+                   or (isinstance(st.value, ast.Call) and isinstance(st.value.func, ast.Name) and st.value.func.id == "dict" and not st.value.args))}
     stores = []
     for st in walk_local(pc.node):
         if isinstance(st, ast.Assign) and isinstance(st.targets[0], ast.Subscript) and isinstance(st.targets[0].value, ast.Name) \
-                and st.targets[0].value.id == "integral_dict":
+                and st.targets[0].value.id in fresh_dicts:
             stores.append(st)
-    ctx.floor("C05.D5", len(stores), 1, "stores into integral_dict")
+    from .C02 import _accumulator_names
+    accs = _accumulator_names(pc)
+    accname = accs[0] if accs else None
+    ctx.floor("C05.D5", len(stores), 1, "stores into the local cache of component integrals")
     for st in stores:
         k = tm.term(st.targets[0].slice)
         v = tm.term(st.value)
@@ -340,7 +347,7 @@ def run(prog, ctx):
     upds = [R.cfg_node(pc, x) for x in R.calls_in(pc.node, method="update_adaptive_combi")]
     resets_in_loop = []
     for st in walk_local(pc.node):
-        if isinstance(st, ast.Assign) and isinstance(st.targets[0], ast.Name) and st.targets[0].id == "combiintegral" \
+        if isinstance(st, ast.Assign) and isinstance(st.targets[0], ast.Name) and st.targets[0].id == accname \
                 and isinstance(st.value, ast.Constant) and st.value.value == 0 and R.enclosing_loops(st):
             resets_in_loop.append(cpc.node_of(st))
     ctx.floor("C05.D5.driver", len(upds), 1, "index-set refinements in perform_combi")
@@ -352,9 +359,13 @@ def run(prog, ctx):
     # the accumulation uses the looked-up / computed integral of the same component
     acc_ok = False
     for st in walk_local(pc.node):
-        if isinstance(st, ast.AugAssign) and isinstance(st.target, ast.Name) and st.target.id == "combiintegral":
+        if isinstance(st, ast.AugAssign) and isinstance(st.target, ast.Name) and st.target.id == accname:
             t = Terms(pc.node, max_depth=0).term(st.value)
-            if t[0] == "op" and t[1] == "Mult" and ("n", "integral") in t[2] and any(x[0] == "a" and x[2] == "coefficient" for x in t[2]):
+            # (the looked-up / freshly computed integral of this component) * (its coefficient)
+            facs = [x for x in t[2] if x[0] == "n"] if t[0] == "op" and t[1] == "Mult" else []
+            from_cache = any(any(isinstance(b.value, ast.Subscript) and isinstance(b.value.value, ast.Name) and b.value.value.id in fresh_dicts
+                                 for b in Terms(pc.node).env.bindings.get(f[1], []) if b.kind == "assign" and b.value is not None) for f in facs)
+            if facs and from_cache and any(x[0] == "a" and x[2] == "coefficient" for x in t[2]):
                 acc_ok = True
     ctx.check(acc_ok, "C05.D5", R.key_of(pc, "weighted-sum"), pc.loc(),
               "combiintegral accumulates integral * coefficient", "combiintegral no longer accumulates integral * component coefficient")
